@@ -183,7 +183,7 @@ NONTRIVIAL_RULES["conformance_path"] = "every segment sequence once per back end
 NONTRIVIAL_RULES["conformance_host"] = "every (host, validate) pair once per back end; non-trivial when the encoded host differs from the input"
 stand_in(("C11", "C17"), "modifiers", "with_* / origin / relative change only their own component, which reads back",
          "yarl._url:URL.with_host",
-         "3 schemes x 4 userinfos x 5 hosts x 5 ports x 4 paths x 4 query/fragment endings (4800 URLs) x 21 modifier calls", primary=False)
+         "3 schemes x 4 userinfos x 5 hosts x 5 ports x 4 paths x 4 query/fragment endings (4800 URLs) x 21 modifier calls; valid arguments must be accepted", primary=False)
 NONTRIVIAL_RULES["modifiers"] = "every URL of the corpus once per back end, each with 21 modifier calls; non-trivial when it has userinfo or an explicit port"
 
 stand_in(("C10", "C08"), "coherence", "==, hash and the ordering operators are coherent across construction routes; memo entries == lazy values",
